@@ -452,7 +452,12 @@ def stored_la_url(item):
         doc = mpd.Mpd(r.body, 'http://localhost' + url.split('?')[0])
 
         def la_of(rawpro):
-            recs = c10.parse_pro(rawpro)
+            try:
+                recs = c10.parse_pro(rawpro)
+            except Exception as e:
+                acc.violation(sig('stored-la-url', 'pro-undecodable'), f'{url}: the PlayReady object does not decode: '
+                              f'{type(e).__name__}: {e}', rec)
+                return url_value          # reported once; the URL comparison is skipped for this payload
             xml = [v for t, v in recs if t == 1][0].decode('utf-16-le')
             import re as _re
             m = _re.search(r'<LA_URL>(.*?)</LA_URL>', xml, _re.S)
